@@ -148,6 +148,27 @@ rw = [x for x in w if issubclass(x.category, RuntimeWarning) and "zz_r" in str(x
 if raised is not None or len(rw) != 1 or ("zz_m", "module", 0) not in LOG or st.error is not None:
     leg.violation("raising-glue", f"a glue function that raises must cost one warning and nothing else: raised={raised!r} warnings={len(rw)} log={LOG} "
                                   f"error={getattr(st, 'error', None)!r}")
+# ... also when the exception the glue function raises cannot even be printed (its __str__ / __repr__ raise too)
+class Unprintable(Exception):
+    def __str__(s): raise IndexError("str() of the glue's exception fails")
+    def __repr__(s): raise IndexError("repr() of the glue's exception fails")
+fresh_world()
+def bad_glue():
+    LOG.append(("zz_u", "module", 0)); raise Unprintable()
+mu = types.ModuleType("zz_u"); mu._stackscope_install_glue_ = bad_glue
+sys.modules["zz_u"] = mu; sys.modules["zz_m"] = MODS["zz_m"]
+with warnings.catch_warnings(record=True) as w:
+    warnings.simplefilter("always")
+    try:
+        st = stackscope.extract(G); raised = None
+    except BaseException as e:
+        st = None; raised = e
+sys.modules.pop("zz_u", None)
+leg.case("raising-glue-unprintable", True)
+rw = [x for x in w if issubclass(x.category, RuntimeWarning) and "zz_u" in str(x.message)]
+if raised is not None or len(rw) != 1 or ("zz_m", "module", 0) not in LOG or st.error is not None:
+    leg.violation("raising-glue-unprintable", f"a glue function raising an exception that cannot be printed must still cost one warning and nothing "
+                                              f"else: raised={type(raised).__name__ if raised else None} warnings={len(rw)} log={LOG}")
 # two threads: B starts extracting while A is inside a (slow) glue function
 fresh_world()
 started, done = threading.Event(), []
